@@ -11,7 +11,11 @@ Inductive case :=
 | CHist (p : params) (rates0 : list rate_entry) (steps : list (henv * hstep * hobs))
 (** parameter acceptance: Params.Validate result, MsgEditOracleParams result (None = not applicable),
     stored parameters as expected afterwards *)
-| CParams (p : params) (validate_ok : bool) (edit_ok : option bool) (stored_ok : bool).
+| CParams (p : params) (validate_ok : bool) (edit_ok : option bool) (stored_ok : bool)
+(** a history of blocks on one keeper in which every vote enters through the message server (prevote, vote and
+    feeder-delegation messages, address fields in any spelling); per block the staking view read before its
+    EndBlocker, the messages and what was observed *)
+| CMsg (p : params) (rates0 : list rate_entry) (steps : list (henv * mstep * mobs)).
 Definition mkCase := CSingle.
 
 (** the ExchangeRates store is compared as a list sorted by pair (its iteration order) *)
@@ -60,6 +64,32 @@ Fixpoint hist_cmp (p : params) (s : hstate) (l : list (henv * hstep * hobs)) : b
       hstep_agrees res o && match res with None => true | Some (s', _) => hist_cmp p s' r end
   end.
 
+Fixpoint bools_eqb (a b : list bool) : bool :=
+  match a, b with
+  | [], [] => true
+  | x :: a', y :: b' => Bool.eqb x y && bools_eqb a' b'
+  | _, _ => false
+  end.
+
+(** model of the current message server + EndBlocker vs the observed block: accept flag of every message, rates,
+    events, Votes store read by key, Prevotes store *)
+Definition mstep_agrees (r : list bool * option (mstate * list (nat * Z))) (o : mobs) : bool :=
+  bools_eqb (fst r) (mo_acc o) &&
+  match snd r with
+  | None => mo_panic o
+  | Some (s, evs) =>
+      negb (mo_panic o) && rates_eqb (sort_rates (ms_rates s)) (sort_rates (mo_rates o)) && evs_eqb evs (mo_events o) &&
+      votes_eqb (map to_avote (ms_votes s)) (mo_votes o) && evs_eqb (map to_prevote (ms_prevotes s)) (mo_prevotes o)
+  end.
+
+Fixpoint mhist_cmp (p : params) (s : mstate) (l : list (henv * mstep * mobs)) : bool :=
+  match l with
+  | [] => true
+  | (e, x, o) :: r =>
+      let res := mhist_step true true p e s x in
+      mstep_agrees res o && match snd res with None => true | Some (s', _) => mhist_cmp p s' r end
+  end.
+
 (** the code accepts exactly the parameter values of [Spec.params_valid], directly and through an edit;
     a rejected edit changes nothing *)
 Definition params_accept_ok (p : params) (v : bool) (ed : option bool) (st : bool) : bool :=
@@ -70,10 +100,12 @@ Definition mismatch (c : case) : bool :=
   | CSingle p st h obs => negb (outcome_eqb (end_block true p st h) obs)
   | CHist p rs steps => negb (hist_cmp p (mkHS rs [] []) steps)
   | CParams p v ed st => negb (params_accept_ok p v ed st)
+  | CMsg p rs steps => negb (mhist_cmp p (mkMS rs [] [] []) steps)
   end.
 Definition violates (c : case) : bool :=
   match c with
   | CSingle p st h obs => negb (Pb p st h obs)
   | CHist p rs steps => negb (Pb_hist p rs [] [] steps)
   | CParams p v ed st => negb (params_accept_ok p v ed st)
+  | CMsg p rs steps => negb (Pb_mhist p rs [] [] steps)
   end.
